@@ -27,9 +27,13 @@ public:
                 pending += data;
                 while (step < script.size() && pending.contains(script[step].first)) {
                     pending.clear();
-                    sock->write(script[step].second);
+                    QByteArray reply = script[step].second;
+                    bool close = reply.endsWith("<<close>>");
+                    if (close) reply.chop(9);
+                    sock->write(reply);
                     sock->flush();
                     step++;
+                    if (close) { sock->disconnectFromHost(); break; }
                 }
             });
         });
